@@ -218,3 +218,35 @@ PROPS["C18"] = dict(
     trusted=TYPES_TRUSTED,
     assumptions=["JSON text <-> tree and the serde derive glue are trusted libraries; the serde data-model round trips are compared byte-for-byte (C18 serde part)"],
 )
+
+PROPS["C17"] = dict(
+    modules=["Essential.Props.C17"],
+    gen=gen_types.c17_cases,
+    model_is_spec=True,
+    nontrivial=lambda body, out: out.startswith("x"),
+    exhaustive="varint / zigzag boundaries of the postcard encoding; program lengths around the SHA-256 block boundaries",
+    rule="cases: random and limit-size predicates, programs, contracts (with repeated predicates), solutions and sets; the model "
+         "computes SHA-256 of its own pre-image and must equal content_addr; postcard bytes of solutions are compared byte for "
+         "byte; oracles on the real code: all permutations checked through reversal+rotation, helper constructors / trait methods "
+         "agree, the hashed bytes recomputed independently, single-field perturbations (salt bit, node byte, extra edge, duplicate "
+         "predicate added/removed, extra empty slot) change the address; non-trivial = every distinct case",
+    trusted=TYPES_TRUSTED + ["SHA-256 in the Lean driver (unverified, compared with sha2 on every case)", "postcard as a faithful transport of the serde data model (bytes compared on every solution case)"],
+    assumptions=["injective 'up to SHA-256' by statement: distinct pre-images are proved, collision resistance is not"],
+)
+
+PROPS["C19"] = dict(
+    modules=["Essential.Props.C19"],
+    gen=gen_types.c19_cases,
+    model_is_spec=True,
+    project=lambda out: out.split(" verify=")[0] if out.startswith("ok") else out.split(" ")[0],
+    nontrivial=lambda body, out: out.startswith("ok") or out.startswith("err"),
+    exhaustive="all 256 recovery-id bytes for every generated signature (oracle)",
+    rule="cases: random keys and contracts (0..5 predicates, repeated predicates, random salts) signed with the sign crate; the "
+         "model recomputes the signed content address itself and looks the ECDSA answer up in a table computed with libsecp256k1 "
+         "for exactly that address (a different address is a table miss = disagreement); permuted and tampered contracts (salt bit, "
+         "added / removed / duplicated predicate, extra node), wrong and out-of-range recovery ids, reversed / zero / 0xFF "
+         "signatures; oracle on the real crates: recover(sign) = signer, order independence, tampering never recovers the signer, "
+         "all 256 ids, flipped signature bits, the 4+1 word key encoding; non-trivial = every distinct case",
+    trusted=TYPES_TRUSTED + ["ECDSA (libsecp256k1) is a parameter of the model: E.Correct is a hypothesis of sign_recover, not an axiom"],
+    assumptions=["binding relies on SHA-256 collision resistance and on ECDSA not recovering one key for two messages (stated, not proved)"],
+)
